@@ -15,8 +15,14 @@ TRUSTED_C = [
 def setup(chk, props):
     build = vlib.build_repo("hooks")
     drv = vlib.build_driver("scn_driver", build, libs=("-lcgreen", "-lxml2"))
-    chk.prove(props)
-    chk.cov["trusted_base"] = TRUSTED_C + ["axioms: see coverage.print_assumptions"]
+    # the functions of src/reporter.c translated whole from the current source, and the proofs that
+    # they compute what Runner.v's read_results / base_finish_test / base_finish_suite say
+    chk.prove(props + ["Properties_Code_Reporter.v"])
+    chk.cov["trusted_base"] = TRUSTED_C + [
+        "tools/srccode.py + clang JSON AST: read_reporter_results(), reporter_finish_test(), reporter_finish_suite() and the notification functions are translated whole (loops included) into CLite programs on every run; coq/CLite.v (the interpreter that gives them meaning) and the refinement proofs of Lemmas_Code_Reporter.v tie Runner.v's model of them to the code",
+        "axioms: see coverage.print_assumptions"]
+    import codetie
+    chk.code_cases = codetie.reporter_cases(chk)
     return drv
 
 
@@ -166,7 +172,7 @@ def correspondence(chk, cases, runs, mrs):
 def check_C01(chk):
     drv = setup(chk, ["Properties_C01.v"])
     n = 12 if chk.tier == "quick" else 250
-    cases = corner_cases() + gen_cases(chk, n)
+    cases = corner_cases() + chk.code_cases + gen_cases(chk, n)
     # a failing, a dying and an exiting test registered BEFORE a sub-suite of the same suite, at two depths
     for bad in ([("c", 0)], [("c", 1), ("die", "sig", 11)], [("die", "exit", 3)]):
         for rep in (L.REPORTERS if chk.tier == "thorough" else [chk.rng.choice(L.REPORTERS)]):
@@ -225,7 +231,7 @@ def runner_cases_C01(chk):
 def check_C03(chk):
     drv = setup(chk, ["Properties_C03.v"])
     n = 12 if chk.tier == "quick" else 250
-    cases = corner_cases(which=("skip-then-die", "die-after-completion")) + gen_cases(chk, n, modes=("forked",))
+    cases = corner_cases(which=("skip-then-die", "die-after-completion")) + chk.code_cases + gen_cases(chk, n, modes=("forked",))
     cases += gen_cases(chk, max(3, n // 4), modes=("inproc",), kinds=[("pass", 4), ("fail", 3), ("empty", 1), ("xensure", 1), ("skiptest", 2), ("mixed", 2)])
     runs, mrs = run_cases(drv, cases)
     correspondence(chk, cases, runs, mrs)
